@@ -280,3 +280,12 @@ Definition jnat (n : nat) : jv := JInt (Z.of_nat n).
 Definition jnats (l : list nat) : jv := JList (map jnat l).
 Definition jopt {A} (f : A -> jv) (o : option A) : jv := match o with Some x => f x | None => JNull end.
 Definition jstrs (l : list string) : jv := JList (map JStr l).
+
+(* canonical key order of value trees (YAML writes dictionaries with sorted keys) *)
+Fixpoint jv_sort (v : jv) {struct v} : jv :=
+  match v with
+  | JList l => JList ((fix go (l : list jv) : list jv := match l with [] => [] | x :: r => jv_sort x :: go r end) l)
+  | JDict d => JDict (sort_skeys ((fix go (d : list (string * jv)) : list (string * jv) :=
+                                     match d with [] => [] | (k, x) :: r => (k, jv_sort x) :: go r end) d))
+  | _ => v
+  end.
